@@ -74,6 +74,11 @@ def run(root, tag, seed, rounds=1):
                 J('the job swaps its working directory for a symlink to a host directory', cwd='/w/inner', outputs=['canary-tc.txt'], args=['D', '../inner', 'S', os.path.join(C, 'tc'), '../inner'], inputs=[]),
                 J('toolchain with a symlink to a host directory, cwd below it', toolchain={'marker': 'lnk', 'links': [['hostdir', os.path.join(C, 'tc')]]}, cwd='/hostdir/esc-via-toolchain-link', args=['W', 'out.o', 'x'], inputs=[]),
                 J('toolchain with a symlink to a host directory, output below it', toolchain={'marker': 'lnk', 'links': [['hostdir', os.path.join(C, 'tc')]]}, outputs=['/hostdir/canary-tc.txt'], args=['W', 'out.o', 'x'], inputs=[]),
+                # two links: an absolute one (which means "below the job root" to the job) naming a second, relative one that leads out of the root
+                J('inputs: absolute symlink to a relative symlink out of the root, output read through both', outputs=['a/canary-builds.txt'], args=[], inputs=[{'kind': 'dir', 'name': 'w'}, {'kind': 'symlink', 'name': 'w/a', 'target': '/w/b'}, {'kind': 'symlink', 'name': 'w/b', 'target': '../../..'}]),
+                J('inputs: absolute symlink to a relative symlink out of the root, output directory created through both', outputs=['a/esc-nested/o.o'], args=['W', 'out.o', 'x'], inputs=[{'kind': 'dir', 'name': 'w'}, {'kind': 'symlink', 'name': 'w/a', 'target': '/w/b'}, {'kind': 'symlink', 'name': 'w/b', 'target': '../../..'}]),
+                J('inputs: absolute symlink to a relative symlink out of the root, cwd below both', cwd='/w/a/esc-nested-cwd', args=['W', 'out.o', 'x'], inputs=[{'kind': 'dir', 'name': 'w'}, {'kind': 'symlink', 'name': 'w/a', 'target': '/w/b'}, {'kind': 'symlink', 'name': 'w/b', 'target': '../../..'}]),
+                J('the job creates the two links itself (absolute to relative, out of the root)', outputs=['a/canary-builds.txt'], args=['S', '../../..', 'b', 'S', '/w/b', 'a'], inputs=[]),
                 # crafted toolchain identifiers (alloc_job, a refused raw submit_toolchain, run_job): relative with `..`, absolute, below an unpacked toolchain, empty
                 J('toolchain id with .. (names a directory outside the builder directory)', toolchain_id='../../esc-tcid', args=['W', 'out.o', 'x'], inputs=[]),
                 J('absolute toolchain id', toolchain_id=os.path.join(C, 'esc-abs-tcid'), args=['W', 'out.o', 'x'], inputs=[]),
